@@ -1,0 +1,46 @@
+//go:build verif
+
+package cmd
+
+// This file is compiled only with the "verif" build tag. It exports thin
+// wrappers around unexported functions so that an external verification
+// harness can drive exactly the code paths the commands use, with an
+// explicit clock. It adds no behaviour.
+
+import (
+	"math/rand"
+
+	"github.com/hnakamur/whispertool"
+)
+
+func VerifReadWhisperFile(baseDirOrURL, fileRelPath string, archiveID int, from, until, now whispertool.Timestamp) (*whispertool.Header, TimeSeriesList, error) {
+	return readWhisperFile(baseDirOrURL, fileRelPath, archiveID, from, until, now)
+}
+
+func VerifReadWhisperFileRaw(baseDirOrURL, srcRelPath string, archiveID int) (*whispertool.Header, PointsList, error) {
+	return readWhisperFileRaw(baseDirOrURL, srcRelPath, archiveID)
+}
+
+func VerifSumWhisperFile(baseDirOrURL, item, srcPattern string, archiveID int, from, until, now whispertool.Timestamp) (*whispertool.Header, TimeSeriesList, error) {
+	return sumWhisperFile(baseDirOrURL, item, srcPattern, archiveID, from, until, now)
+}
+
+func VerifGlobFiles(baseDirOrURL, relPathPattern string) ([]string, error) {
+	return globFiles(baseDirOrURL, relPathPattern)
+}
+
+func VerifGlobItems(baseDirOrURL, itemDirPattern string) ([]string, error) {
+	return globItems(baseDirOrURL, itemDirPattern)
+}
+
+func VerifRandomPointsList(retentions []whispertool.ArchiveInfo, rnd *rand.Rand, rndMaxForHightestArchive int, until, now whispertool.Timestamp) PointsList {
+	return randomPointsList(retentions, rnd, rndMaxForHightestArchive, until, now)
+}
+
+func VerifUpdateFileDataWithPointsList(db *whispertool.Whisper, pointsList PointsList, now whispertool.Timestamp) error {
+	return updateFileDataWithPointsList(db, pointsList, now)
+}
+
+func VerifFilterPointsListByTimeRange(h *whispertool.Header, pointsList PointsList, from, until whispertool.Timestamp) PointsList {
+	return filterPointsListByTimeRange(h, pointsList, from, until)
+}
